@@ -18,6 +18,11 @@
    Constructors: datetime/date/time(...) direct constructors = fields as given, range-checked, no normalisation;
    Duration.__new__ / AbsoluteDuration.__new__ = Model/Duration.v; Interval.__new__/__init__ = interval_new below;
    Timezone(key); FixedTimezone(offset, name).
+   Standard-library ("foreign") tzinfo objects - datetime.timezone(timedelta(seconds=off)) (timezone.utc is off = 0) and zoneinfo.ZoneInfo(key) -
+   are opaque values of the TRUSTED protocol: pickling / copying / deep-copying one of them gives an equal object (timezone.__getinitargs__ =
+   (offset,), ZoneInfo.__reduce__ = the cached constructor).  pendulum sees them only through DateTime.timezone / DateTime.tz, which
+   return None for every tzinfo that is not a pendulum Timezone / FixedTimezone (pendulum_tz below; the body of the property is pinned by
+   DateTime_tz_shape).  They reach a DateTime through astimezone(<stdlib tzinfo>) and the direct constructor DateTime(..., tzinfo=<stdlib tzinfo>).
    No proofs here.  Tied to /repo by the C14 correspondence run (both backends; nothing here is Rust). *)
 From Coq Require Import ZArith List Bool String Ascii.
 From Coq Require Import Floats.SpecFloat.
@@ -26,8 +31,13 @@ Import ListNotations.
 Open Scope Z_scope.
 
 (* ------------------------------------------------------------------ values *)
-(* a tzinfo: None, pendulum Timezone (identified by its key: an index into the tz database), FixedTimezone(offset, name as char codes) *)
-Inductive tzv := TzNone | TzNamed (key : Z) | TzFixed (off : Z) (name : list Z).
+(* a standard-library tzinfo: datetime.timezone(timedelta(seconds=off)) without a name, zoneinfo.ZoneInfo(key) (key: index into the tz database) *)
+Inductive stdtz := StdOffset (off : Z) | StdZone (key : Z).
+(* a tzinfo: None, pendulum Timezone (identified by its key: an index into the tz database), FixedTimezone(offset, name as char codes),
+   or a standard-library tzinfo that is not a pendulum class *)
+Inductive tzv := TzNone | TzNamed (key : Z) | TzFixed (off : Z) (name : list Z) | TzForeign (s : stdtz).
+(* DateTime.timezone / DateTime.tz:  `if not isinstance(self.tzinfo, (Timezone, FixedTimezone)): return None` else `self.tzinfo` *)
+Definition pendulum_tz (t : tzv) : tzv := match t with TzForeign _ => TzNone | other => other end.
 (* DateTime: wall microseconds since 0001-01-01 (Spec/Cal.v), fold, tzinfo *)
 Record dtv := mkdt { dt_W : Z; dt_fold : bool; dt_tz : tzv }.
 (* Time: microseconds since midnight, fold, tzinfo *)
@@ -172,6 +182,7 @@ Definition tz_rebuild (r : route) (t : tzv) : result tzv :=
   | TzNone => Ok TzNone
   | TzNamed k => named_rebuild k
   | TzFixed off name => fixed_rebuild off name
+  | TzForeign s => Ok (TzForeign s)             (* trusted: timezone / ZoneInfo reduce to an equal object on every route *)
   end.
 
 (* ------------------------------------------------------------------ Date *)
@@ -195,7 +206,7 @@ Definition dt_attr_f (y mo d h mi s us : Z) (fold : bool) (tz : tzv) (n : string
   else if String.eqb n "minute" then Some (AInt mi) else if String.eqb n "second" then Some (AInt s)
   else if String.eqb n "microsecond" then Some (AInt us) else if String.eqb n "fold" then Some (AInt (Z.b2z fold))
   else if String.eqb n "tzinfo" then Some (ATz tz)
-  else if (String.eqb n "tz" || String.eqb n "timezone") && DateTime_tz_shape then Some (ATz tz)
+  else if (String.eqb n "tz" || String.eqb n "timezone") && DateTime_tz_shape then Some (ATz (pendulum_tz tz))
   else None.
 
 (* datetime(year, month, day, hour=0, minute=0, second=0, microsecond=0, tzinfo=None, *, fold=0) *)
@@ -319,6 +330,8 @@ Definition tz_off (t : tzv) (W : Z) (f : bool) : option Z :=
   | TzNone => None
   | TzNamed k => Some (off_local (zdb k) (W / MEG) f)
   | TzFixed o _ => Some o
+  | TzForeign (StdOffset o) => Some o
+  | TzForeign (StdZone k) => Some (off_local (zdb k) (W / MEG) f)
   end.
 Definition dt_off (v : dtv) : option Z := tz_off (dt_tz v) (dt_W v) (dt_fold v).
 (* the UTC instant (the wall value itself for a naive DateTime) *)
@@ -334,6 +347,8 @@ Definition ep_gt (a b : ep) : result bool :=
       | TzNone, TzNone => Ok (dt_W x >? dt_W y)
       | TzNone, _ | _, TzNone => Raise E_TypeError
       | TzNamed k1, TzNamed k2 => if k1 =? k2 then Ok (dt_W x >? dt_W y) else Ok (dt_inst x >? dt_inst y)
+      | TzForeign (StdZone k1), TzForeign (StdZone k2) =>          (* ZoneInfo(key) is cached: the same object, fields compared *)
+          if k1 =? k2 then Ok (dt_W x >? dt_W y) else Ok (dt_inst x >? dt_inst y)
       | _, _ => Ok (dt_inst x >? dt_inst y)
       end
   | _, _ => Raise E_ValueError
@@ -431,6 +446,8 @@ Definition tz_obs (t : tzv) : list Z :=
   | TzNone => [0]
   | TzNamed k => [1; k]
   | TzFixed o name => 2 :: o :: Z.of_nat (List.length name) :: name
+  | TzForeign (StdOffset o) => [3; o]
+  | TzForeign (StdZone k) => [4; k]
   end.
 Definition opt_obs (o : option Z) : list Z := match o with Some x => [1; x] | None => [0; 0] end.
 (* fields, fold, utcoffset, UTC instant, zone (name / offset) *)
